@@ -78,12 +78,15 @@ def expected_for(o, prefix, prog):
                         if n.startswith(p) and e.kind in VAR_KINDS and isinstance(e.typ, tuple)}
                 s_ = s_.parent
             opt |= {n for n, e in acc.items() if n.startswith(p) and e.kind == "proto"}
+            opt |= {e.name.lower() for e in prog.ents if e.attrs.get("external") and e.name.lower().startswith(p)}
             return "call", req, opt
         if st_.kind == "open-construct" and o.tok_i <= 2 and o.role == "use" and isinstance(toks[0], str) and toks[0].startswith("do "):
             return None  # DO variable position
+        # external procedures are global names: offered everywhere (tolerated, not required: the model has no callers)
+        ext = {e.name.lower() for e in prog.ents if e.attrs.get("external") and e.name.lower().startswith(p)}
         # operands: variables and functions are required; subroutines / generic names / types are tolerated
         req = {n for n, e in acc.items() if n.startswith(p) and e.kind in VAR_KINDS + ("function",)}
-        opt = {n for n, e in acc.items() if n.startswith(p) and e.kind in ("type", "subroutine", "interface", "proto")}
+        opt = {n for n, e in acc.items() if n.startswith(p) and e.kind in ("type", "subroutine", "interface", "proto")} | ext
         # the associate names introduced by this very statement are not accessible in its selectors
         opt |= {t.ent.name.lower() for t in toks if isinstance(t, fmodel.Ref) and t.role == "decl" and t.ent.kind == "assoc"}
         return "body", req, opt
@@ -194,6 +197,8 @@ def check_program(ctx, prog, layout, picks, scratch):
                 kind = e.kind if e is not None else "?"
                 via = fws.binding_path(o.scope, n) if e is not None else context
                 label = f"completion:{context}:missing:{kind}:via-{via}"
+                if str(via).startswith("use-rename-list-reexport"):
+                    label = "completion:missing:rename-list-of-a-re-exported-entity"  # same root cause as the C05 finding
                 cands = [e] if e is not None else universe.get(n, [])
                 if context == "use-only":
                     cands = [x for x in universe.get(n, [])]
